@@ -1262,7 +1262,10 @@ ENativeType = EDataType('ENativeType', object)
 EJavaObject = EDataType('EJavaObject', object)
 EDate = EDataType('EDate', datetime,
                   from_string=parse_date,
-                  to_string=lambda d: d.strftime('%Y-%m-%dT%H:%M:%S.%f%z'))
+                  # (the C library does not pad %Y: years below 1000 would
+                  # be written with less than four digits and not read back)
+                  to_string=lambda d: f'{d.year:04d}'
+                  + d.strftime('-%m-%dT%H:%M:%S.%f%z'))
 EBigDecimal = EDataType('EBigDecimal', Decimal, from_string=Decimal)
 EByte = EDataType('EByte', bytes)
 EByteObject = EDataType('EByteObject', bytes)
